@@ -512,6 +512,54 @@ def unbeartypeable_part(rep):
                         where=f'after set_func_beartyped(f): is_func_beartyped of {label} is {want}')
     if not n: rep.error('C13.beartyped_marker: no path')
 
+def type_attr_cache(rep):
+    """"decorating an already decorated class returns it unchanged" is decided from a per-class entry of the cache beartype keeps on the hierarchy's
+    __sizeof__; an entry must belong to the CLASS it was made for, for as long as it can be found: (S) the table is keyed by the class object itself - never
+    by id(cls) or another value that outlives or can be shared between classes (a collected class's id is reused by the next class allocated there);
+    (b) history: decorated stub subclasses are created and dropped, then new subclasses of the same decorated base are decorated - their members are checked"""
+    import subprocess
+    from pyvc import REPO
+    rel = 'beartype/_util/cache/utilcacheobjattr.py'
+    tree = ast.parse(open(os.path.join(REPO, rel)).read()); n = 0
+    for fn in [x for x in ast.walk(tree) if isinstance(x, ast.FunctionDef) and x.name in ('get_type_attr_cached_or_sentinel', 'set_type_attr_cached')]:
+        keys = []
+        for c in ast.walk(fn):
+            if isinstance(c, ast.Call) and isinstance(c.func, ast.Attribute) and c.func.attr in ('get', 'setdefault', 'pop') and isinstance(c.func.value, ast.Name) and c.func.value.id == 'type_to_attr_name_to_value' and c.args: keys.append(c.args[0])
+            if isinstance(c, ast.Subscript) and isinstance(c.value, ast.Name) and c.value.id == 'type_to_attr_name_to_value': keys.append(c.slice)
+        n += 1
+        ok = bool(keys) and all(isinstance(k, ast.Name) and k.id == 'cls' for k in keys)
+        rep.add(f'C13.type_attr_cache.keyed_by_the_class_itself.{fn.name}', 'proved' if ok else 'refuted', backend='structural',
+                where=f'{rel}:{fn.name}: the per-class table is accessed under {[ast.unparse(k) for k in keys]}' + ('' if ok else ' - not the class object itself: the entry can be found for ANOTHER class'))
+    if n != 2: rep.error(f'C13 type_attr_cache: {n} of 2 functions found (extraction key no longer resolves)')
+    src = """
+import gc, sys
+from beartype import beartype
+from beartype.roar import BeartypeCallHintViolation
+@beartype
+class Base:
+    def base_m(self, x: int) -> int: return x
+bad = 0; total = 0
+for round_ in range(40):
+    for _ in range(3):
+        class Stub(Base): pass          # nothing in it pins the class: it is collected as soon as the name is rebound
+        beartype(Stub)
+    del Stub; gc.collect()
+    class Plugin(Base):
+        def m(self, x: int) -> int: return x
+    beartype(Plugin); total += 1
+    try: Plugin().m('not an int'); bad += 1
+    except BeartypeCallHintViolation: pass
+    del Plugin
+print(f'{bad} of {total} freshly decorated subclasses accept a bad argument'); sys.exit(1 if bad else 0)
+"""
+    env = dict(os.environ); env['PYTHONPATH'] = REPO
+    p = subprocess.run([sys.executable, '-c', src], capture_output=True, text=True, timeout=180, env=env, cwd='/')
+    if p.returncode not in (0, 1): rep.error('C13 type_attr_cache harness: ' + (p.stdout + p.stderr)[-600:]); return
+    if p.returncode == 1:
+        rep.add('C13.history.decorated_after_collected_siblings', 'refuted', backend='runtime-contract', bounded=True, where=p.stdout.strip()[-300:], solver_output='bounded run-time contract in a fresh interpreter (not a proof)',
+                replay=dict(reproduced=True, detail=p.stdout.strip()[-300:]), replay_script=f"import subprocess\nenv = dict(os.environ); env['PYTHONPATH'] = os.environ.get('VERIF_REPO', {REPO!r})\np = subprocess.run([sys.executable, '-c', {src!r}], env=env, cwd='/')\nsys.exit(p.returncode)\n")
+    rep.bounded.append(dict(kind='subclasses decorated after decorated siblings were garbage-collected (bounded stand-in, NOT counted as proved)', rounds=40, failing=int(p.returncode == 1)))
+
 def descriptor_part(rep):
     """function mode on the two descriptor decorators.  Contract (from the property statement):
       property: the result is the SAME descriptor when no accessor changed; otherwise a property whose getter/setter/deleter are the decorated
@@ -586,7 +634,7 @@ def descriptor_part(rep):
 
 def main(tier, seed):
     rep = report.Report('C13', tier, seed, 'other', f'./check C13 --tier {tier}')
-    for fn in (func_part, type_part, decorcore_part, descriptor_part, unbeartypeable_part):
+    for fn in (func_part, type_part, decorcore_part, descriptor_part, unbeartypeable_part, type_attr_cache):
         try: fn(rep)
         except Exception: rep.error(f'C13 {fn.__name__}: ' + traceback.format_exc()[-2500:])
     try: bounded(rep, tier)
